@@ -115,6 +115,8 @@ class UsedQubitIndicesVisitor(Visitor):
 
     def visit_NamedQubit(self, obj, context=None):
         reg, idx = obj.resolve_qubit(context)
+        if isinstance(idx, float) and idx.is_integer():
+            idx = int(idx)
         return {reg.name: set((idx,))}
 
     def visit_Register(self, obj, context=None):
